@@ -276,36 +276,56 @@ fn run_case(case: &[String]) -> String {
             format!("T1={}\tD1={}", hex(t1.as_bytes()), d1)
         }
         "msg" => {
-            // start line | ordered headers | body, printed by hand from the library's own pieces, parsed by parse_complete
+            // start line | ordered headers | body: a Request / Response built through the public API, put on the
+            // wire by Endpoint::send_outgoing_request / _response over a mock transport, parsed by parse_complete
             let f: Vec<&str> = case[3].split('|').collect();
             let mut headers = Headers::new();
-            let mut order: Vec<(String, String)> = vec![];
             for e in f[1].split(';').filter(|s| !s.is_empty()) {
                 let mut it = e.splitn(2, '=');
                 let n = unhx(it.next().unwrap());
                 let v = unhx(it.next().unwrap_or(""));
                 headers.insert(Name::from(n.clone()), v.clone());
-                order.push((n, v));
             }
-            let body = unhex(f[2]);
+            let body = unhex(f.get(2).copied().unwrap_or(""));
             let line = unhx(f[0]);
-            let mut text = format!("{}\r\n", line);
-            for (n, v) in headers.iter() {
-                text.push_str(&format!("{}: {}\r\n", n.as_print_str(), v));
+            let wire: WireLog = Default::default();
+            let w2 = wire.clone();
+            let sent = run_async_case(1, move || async move {
+                let clock = Clock::new();
+                let tp = sip_core::transport::TpHandle::new(MockTp::udp(w2, clock.0));
+                let mut builder = sip_core::Endpoint::builder();
+                builder.add_unmanaged_transport(tp.clone());
+                let endpoint = builder.build();
+                let dest: std::net::SocketAddr = "10.9.9.9:5060".parse().unwrap();
+                let parts = sip_core::transport::OutgoingParts { transport: tp.clone(), destination: dest, buffer: Default::default() };
+                let text = format!("{}\r\nX-Pad: long enough not to be taken for a truncated STUN header\r\n\r\n", line);
+                match parse_complete(endpoint.parser(), text.as_bytes()) {
+                    Ok(CompleteItem::Sip { line: MessageLine::Request(line), .. }) => {
+                        let mut m = sip_core::transport::OutgoingRequest { msg: sip_core::Request { line, headers, body: Bytes::from(body) }, parts };
+                        match endpoint.send_outgoing_request(&mut m).await { Ok(()) => "ok".into(), Err(e) => format!("SEND-ERR {}", e) }
+                    }
+                    Ok(CompleteItem::Sip { line: MessageLine::Response(line), .. }) => {
+                        let mut m = sip_core::transport::OutgoingResponse { msg: sip_core::Response { line, headers, body: Bytes::from(body) }, parts };
+                        match endpoint.send_outgoing_response(&mut m).await { Ok(()) => "ok".into(), Err(e) => format!("SEND-ERR {}", e) }
+                    }
+                    _ => "BAD-START-LINE".into(),
+                }
+            });
+            match sent {
+                Ok(s) if s == "ok" => {}
+                Ok(s) => return s,
+                Err(e) => return format!("PANIC {}", e),
             }
-            text.push_str(&format!("Content-Length: {}\r\n\r\n", body.len()));
-            let mut bytes = text.into_bytes();
-            bytes.extend_from_slice(&body);
+            let bytes = match wire.lock().first() { Some(w) => w.2.clone(), None => return "NOTHING-SENT".into() };
             match parse_complete(Parser::default(), &bytes) {
                 Ok(CompleteItem::Sip { line, headers, body: b2, .. }) => {
                     let hs: Vec<String> = headers
                         .iter()
-                        .filter(|(n, _)| n.as_print_str().to_ascii_lowercase() != "content-length")
-                        .map(|(n, v)| format!("{}={}", hx(&n.as_print_str().to_ascii_lowercase()), hx(&v.to_string())))
+                        .map(|(n, v)| format!("{}={}", hx(n.as_print_str()), hx(&v.to_string())))
                         .collect();
-                    format!("L={}\tH={}\tB={}", hex(line.default_print_ctx().to_string().as_bytes()), hs.join(";"), hex(&b2))
+                    format!("T={}\tL={}\tH={}\tB={}", hex(&bytes), hx(&line.default_print_ctx().to_string()), hs.join(";"), hex(&b2))
                 }
-                _ => "UNPARSED".into(),
+                _ => format!("T={}\tUNPARSED", hex(&bytes)),
             }
         }
         other => format!("bad kind {}", other),
